@@ -2,7 +2,8 @@
    Property theorems only: each is closed by `exact <lemma>`; Print Assumptions must report a closed term. *)
 From Coq Require Import List Bool Arith.
 Import ListNotations.
-Require Import PonyV.Model.C03Bexp PonyV.Proofs.C03Checker PonyV.Model.C03Decomp PonyV.Model.C03Family PonyV.Proofs.C03Roundtrip PonyV.Proofs.C03RoundtripCnf PonyV.Proofs.C03CompileSound.
+Require Import PonyV.Model.C03Bexp PonyV.Proofs.C03Checker PonyV.Model.C03Decomp PonyV.Model.C03Family PonyV.Proofs.C03Roundtrip PonyV.Proofs.C03RoundtripCnf PonyV.Proofs.C03CompileSound
+               PonyV.Model.C03Cache PonyV.Proofs.C03CacheProofs PonyV.Gen.C03CacheKey.
 
 (* The oracle the harness uses to judge every output of the real decompiler: if the truth-table checker accepts a pair
    of expressions (any number of atoms), they have the same VALUE under every assignment of their free names ... *)
@@ -88,4 +89,20 @@ Print Assumptions C03_compile_sound.
 
 Example C03_compile_sound_nonvacuous :
   simple (Or [And [Atom 0; Not (Cmp false (Atom 1) (And [Atom 2; Const VNone]))]; IsNone true (Atom 3)]) = true.
+Proof. reflexivity. Qed.
+
+(* ------------------------------------------------------------------------------------------------------------------
+   The tree cache of decompile(): ast_cache[get_codeobject_id(code)], keyed by the ADDRESS of the code object.
+   For every history of decompile() calls and releases of code objects, and every behaviour of the allocator (a new object
+   never gets the address of a live one - nothing more is assumed), each call returns the tree of the object that was passed
+   in.  `pins_codeobjects` is read off pony/utils/utils.py on every run (Gen/C03CacheKey.v): the theorem only type-checks
+   while get_codeobject_id keeps every code object it has seen alive.  Without the pin the statement is false
+   (Proofs/C03CacheProofs.v, cache_unpinned_refuted: build a query, drop it, build another one at the same address). *)
+Theorem C03_cache_own_tree : forall f ops l, crun pins_codeobjects f cinit ops = Some l -> l = cexpected f ops.
+Proof. exact (fun f ops l => cache_pinned f ops cinit l (inv_init f)). Qed.
+Print Assumptions C03_cache_own_tree.
+
+Example C03_cache_nonvacuous :
+  crun pins_codeobjects (fun c => c + 10) cinit [CDecompile (mkObj 7 1); CDrop (mkObj 7 1); CDecompile (mkObj 8 2); CDecompile (mkObj 7 1)]
+  = Some [11; 12; 11].
 Proof. reflexivity. Qed.
